@@ -110,7 +110,7 @@ func TestC15(t *testing.T) {
 		}
 	}
 	r.Require("gets_after_install", "gets_without_install", "gets_after_many_installs", "builder_failures", "closes_checked", "updater_created_during_install",
-		"installs_with_failing_cache", "concurrent_gets", "updaters_from_racing_lookups", "interface_typed_updater_gets", "gets_while_failed_build_outstanding", "updater_lifetime_cases", "installs_going_back", "updaters_created_during_a_poll_of_a_stale_secret")
+		"installs_with_failing_cache", "concurrent_gets", "updaters_from_racing_lookups", "interface_typed_updater_gets", "gets_while_failed_build_outstanding", "updater_lifetime_cases", "installs_going_back", "installs_of_equal_bytes", "updaters_created_during_a_poll_of_a_stale_secret")
 	r.Rule("sequential seeded histories over 2 secrets and up to 5 updaters: installs (0..4 between Gets, sometimes with a failing cache write), updater creation (also while an install lands during its initial build), scripted builder failures, Gets; exact expectations per Get on (builder invoked?, with which bytes, value returned, Err, Close counts). Concurrent runs: 8 Get goroutines vs an installer, judged by call/return stamps. Distinct = (event, installs since last Get capped at 3, builder outcome)")
 }
 
@@ -124,9 +124,11 @@ func seqCase(r *evid.Run, idx int) {
 	svc := fakesvc.New()
 	names := []string{"w/one", "w/two"}
 	ver := map[string]uint32{}
+	active := map[string]uint32{} // the version number active at the service
 	for _, nme := range names {
 		ver[nme] = 1
 		svc.Set(nme, 1, []byte(nme+"#1"))
+		active[nme] = 1
 	}
 	cacheFail := false
 	cache := &fakesvc.MonCache{WriteErr: func(int) error {
@@ -143,6 +145,7 @@ func seqCase(r *evid.Run, idx int) {
 	}
 	defer st.Close()
 	current := map[string]string{}
+	installed := map[string]uint32{} // the version number the store holds (polls never fail at the service here)
 	read := func(nme string) string {
 		if h := st.Secret(nme); h != nil {
 			return string(h.Get())
@@ -150,14 +153,16 @@ func seqCase(r *evid.Run, idx int) {
 		return ""
 	}
 	current[names[0]] = read(names[0])
+	installed[names[0]] = active[names[0]]
 	var ups []*upd
 	installsSince := map[*upd]int{}
 	// refresh performs a poll and marks every updater whose secret's bytes changed as pending.
 	refresh := func() {
 		st.Refresh(context.Background())
 		for _, nme := range names {
-			if now := read(nme); now != "" && now != current[nme] {
+			if now := read(nme); now != "" && (now != current[nme] || active[nme] != installed[nme]) {
 				current[nme] = now
+				installed[nme] = active[nme]
 				for _, u := range ups {
 					if u.name == nme {
 						u.pending = true
@@ -213,6 +218,7 @@ func seqCase(r *evid.Run, idx int) {
 				<-entered
 				ver[nme]++
 				svc.Set(nme, ver[nme], []byte(fmt.Sprintf("%s#%d", nme, ver[nme])))
+				active[nme] = ver[nme]
 				refresh()
 				close(gate)
 				<-done
@@ -224,6 +230,7 @@ func seqCase(r *evid.Run, idx int) {
 			}
 			if current[nme] == "" {
 				current[nme] = read(nme) // first lookup of the undeclared secret
+				installed[nme] = active[nme]
 			}
 			if failInit {
 				if uerr == nil {
@@ -264,11 +271,20 @@ func seqCase(r *evid.Run, idx int) {
 					// the operator goes BACK to an earlier version: an install like any other
 					older := uint32(1 + rng.IntN(int(ver[nme]-1)))
 					svc.Set(nme, older, []byte(fmt.Sprintf("%s#%d", nme, older)))
+					active[nme] = older
 					r.Count("installs_going_back", 1)
 					trace = append(trace, fmt.Sprintf("re-activate %s#%d", nme, older))
+				} else if rng.IntN(6) == 0 {
+					// a NEW version number carrying the bytes that are active already (the same credential put again
+					// after something else): an install like any other - a new version is a new version
+					ver[nme]++
+					svc.Set(nme, ver[nme], []byte(current[nme]))
+					active[nme] = ver[nme]
+					r.Count("installs_of_equal_bytes", 1)
 				} else {
 					ver[nme]++
 					svc.Set(nme, ver[nme], []byte(fmt.Sprintf("%s#%d", nme, ver[nme])))
+					active[nme] = ver[nme]
 				}
 				cacheFail = rng.IntN(5) == 0
 				if cacheFail {
